@@ -3,7 +3,8 @@
 For a property, the rule is re-run on copies of the *facts* (the typed program as extracted from /repo's working
 tree - nothing is compiled or executed) in which exactly one construct inside one of the functions the rule
 analysed has been perturbed: an integer literal changed by one, an arithmetic or comparison operator replaced by
-its neighbour, a shift amount changed, two adjacent statements exchanged, a branch condition negated.  A
+its neighbour, two adjacent statements exchanged, a branch condition negated, two same-typed arguments of a call or
+two same-typed field initialisers of a struct literal exchanged.  A
 perturbation after which the rule reports something it did not report before is *noticed*.  The audit reports
 the share of noticed perturbations and lists the ones that went unnoticed, each with file:line - those are either
 irrelevant to this property (an opcode constant does not matter to a checksum ledger) or a blind spot worth a
@@ -24,6 +25,8 @@ def sites_of(body):
             elif k == 'Binary' and x.get('op') in OPS: out.append((path, 'op'))
             elif k == 'AssignOp' and x.get('op', '').replace('Assign', '') in OPS: out.append((path, 'assignop'))
             elif k == 'If': out.append((path, 'negate'))
+            elif k == 'Call' and len(x.get('args', [])) >= 2 and _same_typed_pair(x['args']) is not None: out.append((path, 'argswap'))
+            elif k == 'Adt' and not x.get('is_enum') and _same_typed_pair([fd['e'] for fd in x.get('fields', [])]) is not None: out.append((path, 'fieldswap'))
             elif k == 'Block' and len(x.get('stmts', [])) >= 2:
                 for i in range(len(x['stmts']) - 1):
                     a, b = x['stmts'][i], x['stmts'][i + 1]
@@ -35,6 +38,20 @@ def sites_of(body):
             for i, v in enumerate(x): walk(v, path + [i])
     walk(body, [])
     return out
+
+def _same_typed_pair(es):
+    """indices of the first two expressions of identical (non-unit) type that are not syntactically equal"""
+    for i in range(len(es)):
+        for j in range(i + 1, len(es)):
+            a, b = es[i], es[j]
+            if isinstance(a, dict) and isinstance(b, dict) and a.get('ty') and a.get('ty') == b.get('ty') and a.get('ty') != '()' and _strip_sp(a) != _strip_sp(b):
+                return i, j
+    return None
+
+def _strip_sp(x):
+    if isinstance(x, dict): return {k: _strip_sp(v) for k, v in x.items() if k != 'sp'}
+    if isinstance(x, list): return [_strip_sp(v) for v in x]
+    return x
 
 def _get(root, path):
     for p in path: root = root[p]
@@ -59,6 +76,15 @@ def apply(body, path, kind):
     if kind == 'assignop':
         old = node['op']; base = old.replace('Assign', ''); node['op'] = old.replace(base, OPS[base])
         return b, 'operator %s -> %s' % (old, node['op']), sp
+    if kind == 'argswap':
+        i, j = _same_typed_pair(node['args'])
+        node['args'][i], node['args'][j] = node['args'][j], node['args'][i]
+        return b, 'arguments %d and %d of the call to %s exchanged' % (i, j, (node.get('callee') or '?').split('::')[-1]), sp
+    if kind == 'fieldswap':
+        es = [fd['e'] for fd in node['fields']]
+        i, j = _same_typed_pair(es)
+        node['fields'][i]['e'], node['fields'][j]['e'] = node['fields'][j]['e'], node['fields'][i]['e']
+        return b, 'initialisers of fields %s and %s exchanged' % (node['fields'][i]['name'], node['fields'][j]['name']), sp
     if kind == 'negate':
         c = node.get('cond')
         if not isinstance(c, dict): return None
